@@ -37,7 +37,8 @@ func (c05) Rule() string {
 func (c05) Assumptions() []string {
 	return []string{
 		"only the upper bound is asserted (requested ⊆ allowed); a zero-length block lying inside [a,b] and, for an empty request, the block holding a are tolerated",
-		"file DAGs declare child sizes (FileSize/BlockSizes/Tsize): without them a reader has to open children to learn their length",
+		"where a file node does not record the size of a dag-pb child (no BlockSizes entry for it) a lazy reader has no way to learn where that child's bytes end but to open it: the child's root block - and, if that child records no FileSize either, recursively the blocks needed to measure it - are then allowed in addition (dagmodel.AllowedLazy); raw children are never allowed for measuring (their size is the link's Tsize), and nodes that record all sizes, as every importer writes them, add nothing",
+		"obtaining the lazy view of a file (no byte read) may request the root block only",
 		"allowed sets are computed by CID, so a repeated chunk counts wherever it occurs",
 	}
 }
